@@ -5,10 +5,13 @@ From NV Require Spec.C14 Proofs.Fs_proofs.
 Import ListNotations.
 Open Scope N_scope.
 
-(* frame: whatever the request, every path other than the target keeps its node, except that
-   missing parent directories of the target may have been created *)
-Theorem C14_frame : forall c f r flt out f' p,
-  handle_upload c f r flt = (out, f') ->
+(* tok is the random part of the temporary file's name (the value of secrets.token_hex(8)): every statement holds
+   for every value of it.
+   frame: whatever the request, every path other than the target keeps its node, except that
+   missing parent directories of the target may have been created (in particular a file that happens to carry the
+   temporary name is left alone) *)
+Theorem C14_frame : forall c f r flt tok out f' p,
+  handle_upload c f r flt tok = (out, f') ->
   lstat f' p <> lstat f p ->
   (lstat f p = None /\ lstat f' p = Some Dir) \/
   (out = UResp 20 (lit "text/gemini") /\ resolve_target c f (q_path r) = Ok (Some p)).
@@ -16,16 +19,16 @@ Proof. exact Fs_proofs.frame. Qed.
 Print Assumptions C14_frame.
 
 (* a successful store: the target lies inside the upload directory and holds exactly the content *)
-Theorem C14_exact : forall c f r f' t,
-  handle_upload c f r None = (UResp 20 (lit "text/gemini"), f') -> q_size r <> 0 ->
+Theorem C14_exact : forall c f r tok f' t,
+  handle_upload c f r None tok = (UResp 20 (lit "text/gemini"), f') -> q_size r <> 0 ->
   resolve_target c f (q_path r) = Ok (Some t) ->
   path_prefixb (u_root c) t = true /\ lstat f' t = Some (File (q_content r)).
 Proof. exact Fs_proofs.exact. Qed.
 Print Assumptions C14_exact.
 
 (* a successful delete removes the target and nothing else *)
-Theorem C14_delete : forall c f r flt f' t,
-  handle_upload c f r flt = (UResp 20 (lit "text/gemini"), f') -> q_size r = 0 ->
+Theorem C14_delete : forall c f r flt tok f' t,
+  handle_upload c f r flt tok = (UResp 20 (lit "text/gemini"), f') -> q_size r = 0 ->
   resolve_target c f (q_path r) = Ok (Some t) ->
   lstat f' t = None /\ u_delete c = true.
 Proof. exact Fs_proofs.delete_ok. Qed.
@@ -33,8 +36,8 @@ Print Assumptions C14_delete.
 
 (* any change to a regular file requires: valid token, size within the limit, allowed media type,
    deletion enabled for zero-byte requests *)
-Theorem C14_guards : forall c f r flt out f' p,
-  handle_upload c f r flt = (out, f') -> lstat f' p <> lstat f p ->
+Theorem C14_guards : forall c f r flt tok out f' p,
+  handle_upload c f r flt tok = (out, f') -> lstat f' p <> lstat f p ->
   (Spec.C14.is_file (lstat f p) = true \/ Spec.C14.is_file (lstat f' p) = true) ->
   Spec.C14.guards_ok c r = true.
 Proof. exact Fs_proofs.guards. Qed.
@@ -42,8 +45,8 @@ Print Assumptions C14_guards.
 
 (* every non-success answer - including a store that failed part-way - leaves every regular file
    unchanged and creates none *)
-Theorem C14_failure_noop : forall c f r flt out f' p,
-  handle_upload c f r flt = (out, f') -> out <> UResp 20 (lit "text/gemini") ->
+Theorem C14_failure_noop : forall c f r flt tok out f' p,
+  handle_upload c f r flt tok = (out, f') -> out <> UResp 20 (lit "text/gemini") ->
   Spec.C14.is_file (lstat f p) = true \/ Spec.C14.is_file (lstat f' p) = true -> lstat f' p = lstat f p.
 Proof. exact Fs_proofs.failure_noop. Qed.
 Print Assumptions C14_failure_noop.
@@ -55,5 +58,37 @@ Theorem C14_code_tie : forall (unq : str -> str) path,
   match canon_strict (comps (unq path)) [] with Some s => Ok s | None => Err (lit "ValueError") [] end.
 Proof. exact Equiv.canonical_segments_strict_tie. Qed.
 Print Assumptions C14_code_tie.
+
+
+(* ---- tie to the code (server/handler.py FileUploadHandler): the statements of coq/Equiv/EquivStatic.v, re-checked here against the definitions regenerated
+   from /repo's working tree (coq/Gen); see DESIGN.md 11.8 ---- *)
+From Coq Require Import List NArith ZArith Bool.
+From NV Require Import Prelude.Str Prelude.Res Prelude.Utf8 Model.Fs Model.Static Model.CertAuth.
+From NV Require Import Equiv.StaticGlue Gen.StaticGen.
+From NV Require Gen.PyGen.
+From NV Require Equiv.EquivStatic.
+Theorem C14_code_upload_is_safe_path_tie : forall L c f p,
+  gen_upload_is_safe_path L c f p = Ok (path_prefixb (u_root c) p).
+Proof. exact EquivStatic.upload_is_safe_path_tie. Qed.
+Print Assumptions C14_code_upload_is_safe_path_tie.
+
+Theorem C14_code_resolve_target_tie : forall flt tok c f p,
+  contained (u_root c) (gen_resolve_target (model_lib flt tok) c f p) = resolve_target c f p.
+Proof. exact EquivStatic.resolve_target_tie. Qed.
+Print Assumptions C14_code_resolve_target_tie.
+
+Theorem C14_code_handle_delete_tie : forall flt tok c f r,
+  token_ok c (q_token r) = true -> (u_max c <? q_size r)%N = false ->
+  match u_types c with Some (t :: ts) => negb (existsb (eqb (q_mime r)) (t :: ts)) | _ => false end = false ->
+  q_size r = 0%N ->
+  upload_out (gen_handle_delete (model_lib flt tok) c f (q_path r)) = model_out (handle_upload c f r flt tok).
+Proof. exact EquivStatic.handle_delete_tie. Qed.
+Print Assumptions C14_code_handle_delete_tie.
+
+Theorem C14_code_handle_upload_tie : forall flt tok c f r,
+  upload_out (gen_handle_upload (model_lib flt tok) c f r) = model_out (handle_upload c f r flt tok).
+Proof. exact EquivStatic.handle_upload_tie. Qed.
+Print Assumptions C14_code_handle_upload_tie.
+
 
 Close Scope N_scope.
